@@ -14,7 +14,7 @@ CONSTANTS
   Ep0 = 11
   T0 = 1000000
   A0 = 22
-  FixedServ = FALSE
+  FixedServ = TRUE
   MaxEp = 100000
   MaxPay = 100000
   MaxOps = 60
